@@ -78,6 +78,7 @@ func GoEnv() []string {
 }
 
 func Load(cfg LoadConfig) (*Prog, error) {
+	smt.ResetTerms()
 	tags := cfg.Tags
 	if tags == "" {
 		tags = "verif"
